@@ -224,6 +224,49 @@ impl Drop for TmpDir {
     }
 }
 
+/// what ShapeReader::header() says about a file the real writer left
+fn header_event(c: &Conc, shp: &[u8]) -> Value {
+    match guarded(|| ShapeReader::new(Cursor::new(shp.to_vec())).map(|r| *r.header())) {
+        Ok(Ok(h)) => json!({"ev": "header", "ok": true, "words": h.file_length, "t": h.shape_type as i32, "version": h.version,
+                            "box": [c.ax(h.bbox.min.x), c.ax(h.bbox.min.y), c.ax(h.bbox.max.x), c.ax(h.bbox.max.y),
+                                    c.az(h.bbox.min.z), c.az(h.bbox.max.z), c.az(h.bbox.min.m), c.az(h.bbox.max.m)], "shp": jbytes(shp)}),
+        _ => json!({"ev": "header", "ok": false, "words": 0, "t": 0, "version": 0, "box": [0, 0, 0, 0, 0, 0, 0, 0], "shp": jbytes(shp)}),
+    }
+}
+
+/// the accessors of a constructed value: counts, indexed access (in and out of range), into_inner
+fn access_event(c: &Conc, s: &Shape) -> Value {
+    let o = abstract_shape(c, s);
+    let a = |s2: Shape| abstract_shape(c, &s2).to_json();
+    let v = guarded(|| match s {
+        Shape::Multipoint(m) => json!({"total": m.points().len(), "first": m.point(0).map(|p| a(Shape::Point(*p))), "past": m.point(m.points().len()).is_none(),
+                                       "idx0": a(Shape::Point(m[0])), "inner": a(Shape::Multipoint(Multipoint::new(m.clone().into_inner())))}),
+        Shape::MultipointM(m) => json!({"total": m.points().len(), "first": m.point(0).map(|p| a(Shape::PointM(*p))), "past": m.point(m.points().len()).is_none(),
+                                        "idx0": a(Shape::PointM(m[0])), "inner": a(Shape::MultipointM(MultipointM::new(m.clone().into_inner())))}),
+        Shape::MultipointZ(m) => json!({"total": m.points().len(), "first": m.point(0).map(|p| a(Shape::PointZ(*p))), "past": m.point(m.points().len()).is_none(),
+                                        "idx0": a(Shape::PointZ(m[0])), "inner": a(Shape::MultipointZ(MultipointZ::new(m.clone().into_inner())))}),
+        Shape::Polyline(l) => json!({"total": l.total_point_count(), "nparts": l.parts().len(), "past": l.part(l.parts().len()).is_none(),
+                                     "part0len": l.part(0).map(|p| p.len()), "inner": a(Shape::Polyline(Polyline::with_parts(l.clone().into_inner())))}),
+        Shape::PolylineM(l) => json!({"total": l.total_point_count(), "nparts": l.parts().len(), "past": l.part(l.parts().len()).is_none(),
+                                      "part0len": l.part(0).map(|p| p.len()), "inner": a(Shape::PolylineM(PolylineM::with_parts(l.clone().into_inner())))}),
+        Shape::PolylineZ(l) => json!({"total": l.total_point_count(), "nparts": l.parts().len(), "past": l.part(l.parts().len()).is_none(),
+                                      "part0len": l.part(0).map(|p| p.len()), "inner": a(Shape::PolylineZ(PolylineZ::with_parts(l.clone().into_inner())))}),
+        Shape::Polygon(g) => json!({"total": g.total_point_count(), "nparts": g.rings().len(), "past": g.ring(g.rings().len()).is_none(),
+                                    "part0len": g.ring(0).map(|r| r.len()), "ringlens": g.rings().iter().map(|r| r.points().len()).collect::<Vec<_>>(),
+                                    "empties": g.rings().iter().map(|r| r.is_empty()).collect::<Vec<_>>()}),
+        Shape::PolygonM(g) => json!({"total": g.total_point_count(), "nparts": g.rings().len(), "past": g.ring(g.rings().len()).is_none(),
+                                     "part0len": g.ring(0).map(|r| r.len()), "ringlens": g.rings().iter().map(|r| r.as_ref().len()).collect::<Vec<_>>(),
+                                     "empties": g.rings().iter().map(|r| r.is_empty()).collect::<Vec<_>>()}),
+        Shape::PolygonZ(g) => json!({"total": g.total_point_count(), "nparts": g.rings().len(), "past": g.ring(g.rings().len()).is_none(),
+                                     "part0len": g.ring(0).map(|r| r.len()), "ringlens": g.rings().iter().map(|r| r[..].len()).collect::<Vec<_>>(),
+                                     "empties": g.rings().iter().map(|r| r.is_empty()).collect::<Vec<_>>()}),
+        Shape::Multipatch(m) => json!({"total": m.total_point_count(), "nparts": m.patches().len(), "past": m.patch(m.patches().len()).is_none(),
+                                       "part0len": m.patch(0).map(|p| p.points().len()), "inner": a(Shape::Multipatch(Multipatch::with_parts(m.clone().into_inner())))}),
+        _ => json!({}),
+    });
+    json!({"ev": "access", "shape": o.to_json(), "obs": v.unwrap_or(json!({"panic": true}))})
+}
+
 fn sizes_event(shapes: &[Shape], shp: &[u8]) -> Value {
     let mut announced = vec![];
     let mut emitted = vec![];
@@ -282,6 +325,14 @@ pub fn run_case(tr: &mut Trace, c: &Conc, prop: &str, t: i32, ashapes: &[AShape]
     }
     if all || prop == "C18" {
         tr.emit(sizes_event(&shapes, &shp));
+    }
+    if all || prop == "C05" || prop == "C02" {
+        tr.emit(header_event(c, &shp));
+    }
+    if (all || prop == "C01") && id % 3 == 0 {
+        for s in &shapes {
+            tr.emit(access_event(c, s));
+        }
     }
     if (all || prop == "C01") && n >= 1 {
         for &generic in &[true, false] {
